@@ -204,3 +204,84 @@ def bounded_noise_close(opts=None):
                 aio.set_event_loop(None)
     bounded_noise_close.tried = tried
     return fails
+
+
+def bounded_noise_write(opts=None):
+    """Bounded stand-in for the Noise side of C02: the real helper writes batches of packets after a real handshake; a real
+    responder must decrypt every frame, in order, to 16-bit type ++ 16-bit length ++ payload, from exactly one transport write."""
+    import asyncio as aio
+    from aioesphomeapi._frame_helper.noise import APINoiseFrameHelper, ESPHOME_NOISE_BACKEND
+    from noise.connection import NoiseConnection
+    fails = []
+    sizes = [0, 1, 2, 127, 128, 255, 256, 257, 300, 1000, 4096, 65000]
+    batches = [[(1, s)] for s in sizes] + [[(7, 5), (300, 256), (65535, 0)], [(2, 256), (2, 256)]]
+    loop = aio.new_event_loop()
+    aio.set_event_loop(loop)
+    try:
+        psk = bytes(range(32))
+        conn = MagicMock()
+        h = APINoiseFrameHelper(connection=conn, noise_psk=base64.b64encode(psk).decode(), expected_name=None, client_info="b", log_name="b")
+        tr = MagicMock()
+        writes = []
+        tr.write = lambda d: writes.append(bytes(d))
+        h.connection_made(tr)
+        resp = NoiseConnection.from_name(b"Noise_NNpsk0_25519_ChaChaPoly_SHA256", backend=ESPHOME_NOISE_BACKEND)
+        resp.set_as_responder(); resp.set_psks(psk); resp.set_prologue(b"NoiseAPIInit\x00\x00"); resp.start_handshake()
+        resp.read_message(writes[0][7:])
+        h.data_received(_frame(b"\x01dev\x00") + _frame(b"\x00" + resp.write_message(b"")))
+        for batch in batches:
+            del writes[:]
+            pk = [(t, bytes((i * 7 + j) % 256 for j in range(n))) for i, (t, n) in enumerate(batch)]
+            h.write_packets(pk, False)
+            if len(writes) != 1:
+                fails.append({"batch": batch, "problem": f"{len(writes)} transport writes"})
+                break
+            w, pos, got = writes[0], 0, []
+            try:
+                while pos < len(w):
+                    assert w[pos] == 1
+                    n = (w[pos + 1] << 8) | w[pos + 2]
+                    m = resp.decrypt(w[pos + 3:pos + 3 + n])
+                    got.append(((m[0] << 8) | m[1], (m[2] << 8) | m[3], m[4:]))
+                    pos += 3 + n
+            except Exception as e:     # noqa: BLE001
+                fails.append({"batch": batch, "problem": f"responder could not read the frames: {type(e).__name__}: {e}"})
+                break
+            if got != [(t, len(d), d) for t, d in pk]:
+                fails.append({"batch": batch, "problem": "decrypted frames differ from the packets", "got": [(t, n) for t, n, _ in got]})
+                break
+    finally:
+        loop.close()
+        aio.set_event_loop(None)
+    return fails
+
+
+def replay_f9(o):
+    """Witness for the Noise 16-bit length wrap: the real helper, after a real handshake, writes one packet with a 65516-byte payload."""
+    if "noise-frame-fields-fit-16-bits" not in o.get("goal", ""):
+        return None, "no native evaluator for this clause"
+    import asyncio as aio
+    from aioesphomeapi._frame_helper.noise import APINoiseFrameHelper, ESPHOME_NOISE_BACKEND
+    from noise.connection import NoiseConnection
+    loop = aio.new_event_loop()
+    aio.set_event_loop(loop)
+    try:
+        psk = bytes(range(32))
+        h = APINoiseFrameHelper(connection=MagicMock(), noise_psk=base64.b64encode(psk).decode(), expected_name=None, client_info="b", log_name="b")
+        tr = MagicMock()
+        writes = []
+        tr.write = lambda d: writes.append(bytes(d))
+        h.connection_made(tr)
+        resp = NoiseConnection.from_name(b"Noise_NNpsk0_25519_ChaChaPoly_SHA256", backend=ESPHOME_NOISE_BACKEND)
+        resp.set_as_responder(); resp.set_psks(psk); resp.set_prologue(b"NoiseAPIInit\x00\x00"); resp.start_handshake()
+        resp.read_message(writes[0][7:])
+        h.data_received(_frame(b"\x01dev\x00") + _frame(b"\x00" + resp.write_message(b"")))
+        del writes[:]
+        h.write_packets([(1, bytes(65516))], False)
+        w = writes[0]
+        declared = (w[1] << 8) | w[2]
+        wrapped = declared != len(w) - 3
+        return wrapped, f"write_packets([(1, 65516 zero bytes)]): frame header {w[:3].hex()} declares {declared} bytes, {len(w) - 3} follow"
+    finally:
+        loop.close()
+        aio.set_event_loop(None)
